@@ -78,7 +78,14 @@ func findEmbeddedTemplates(c *Check, pkgRel string) []embeddedTemplate {
 				}
 				et := embeddedTemplate{global: g, file: embeds[g.Name()], parse: s}
 				// the data struct of the Execute call of the same function
-				for _, e := range engine.SitesIn(fn) {
+				var execSites []ssa.CallInstruction
+				for _, ef := range c.P.Funcs {
+					if engine.InPackage(ef, pkgRel) {
+						execSites = append(execSites, engine.SitesIn(ef)...)
+					}
+				}
+				seenField := map[string]bool{}
+				for _, e := range execSites {
 					if engine.CalleeName(e) != "(*text/template.Template).Execute" || len(e.Common().Args) < 3 {
 						continue
 					}
@@ -92,7 +99,8 @@ func findEmbeddedTemplates(c *Check, pkgRel string) []embeddedTemplate {
 					}
 					if st, ok := t.Underlying().(*types.Struct); ok {
 						for i := 0; i < st.NumFields(); i++ {
-							if isStringType(st.Field(i).Type()) {
+							if isStringType(st.Field(i).Type()) && !seenField[st.Field(i).Name()] {
+								seenField[st.Field(i).Name()] = true
 								et.fields = append(et.fields, st.Field(i).Name())
 							}
 						}
@@ -124,6 +132,9 @@ func statusPreserved(tail string) (bool, string) {
 	}
 	if len(lines) == 0 {
 		return true, "the user command is the last command of the wrapper"
+	}
+	if len(lines) == 1 && (lines[0] == "exit $?" || lines[0] == `exit "$?"`) {
+		return true, "the wrapper exits with the status of the user command"
 	}
 	if m := captureRe.FindStringSubmatch(lines[0]); m != nil {
 		last := lines[len(lines)-1]
